@@ -27,6 +27,7 @@ import (
 	"go/token"
 	"os"
 	"path/filepath"
+	"sort"
 	"strings"
 )
 
@@ -605,6 +606,56 @@ func loadFixed(rels ...string) func(repo string) ([]*srcFile, []string) {
 		}
 		return out, nil
 	}
+}
+
+// loadFixedPlusRoot loads the named files and, after them, every other non-test Go file of the
+// repository root that has no `verif` build constraint (a function may have been moved to a new
+// file of package bexpr).
+func loadFixedPlusRoot(rels ...string) func(repo string) ([]*srcFile, []string) {
+	return func(repo string) ([]*srcFile, []string) {
+		out, fatal := loadFixed(rels...)(repo)
+		have := map[string]bool{}
+		for _, r := range rels {
+			have[r] = true
+		}
+		names, _ := filepath.Glob(filepath.Join(repo, "*.go"))
+		sort.Strings(names)
+		for _, p := range names {
+			base := filepath.Base(p)
+			if have[base] || strings.HasSuffix(base, "_test.go") {
+				continue
+			}
+			if raw, err := os.ReadFile(p); err != nil || hasVerifConstraint(raw) {
+				continue
+			}
+			out = append(out, loadSrc(repo, base))
+		}
+		return out, fatal
+	}
+}
+
+// rootFiles lists the loaded files of the repository root (package bexpr): first the given ones,
+// then the others in name order.
+func rootFiles(files map[string]*srcFile, first ...string) []*srcFile {
+	var out []*srcFile
+	seen := map[string]bool{}
+	for _, r := range first {
+		if sf := files[r]; sf != nil {
+			out = append(out, sf)
+			seen[r] = true
+		}
+	}
+	var rest []string
+	for rel := range files {
+		if !seen[rel] && !strings.Contains(rel, "/") {
+			rest = append(rest, rel)
+		}
+	}
+	sort.Strings(rest)
+	for _, r := range rest {
+		out = append(out, files[r])
+	}
+	return out
 }
 
 // runAll runs every translator in sequence; the exit code is the maximum.
